@@ -1,2 +1,30 @@
-From Cmr Require Import Base Det TreeModel.
-Theorem placeholder_C04 : True. Proof. exact I. Qed.
+(* Properties_C04.v — C04: node flags and leaf certificates in a decomposition tree never lie. *)
+From Cmr Require Import Base Det BaseProofs PivotModel PivotProofs TuModel SpModel SpProofs SpProofs2
+  GraphModel GraphProofs KsumModel KsumProofs TreeModel TreeProofs.
+Local Open Scope Z_scope.
+
+(* graph data stored at an accepted node reproduces the node's matrix (its transpose for a cograph): the stored
+   forest/coforest/reversals satisfy the fundamental-cycle resp. network specification proved in Properties_C05/C06 *)
+Theorem C04_stored_graphs_reproduce_matrix : forall P Cs, check_node P Cs = 0 ->
+  (forall g, t_graph P = Some g ->
+     if t_tern P then network_represents (t_m P) (t_n P) (t_M P) g
+     else graph_represents (t_m P) (t_n P) (t_M P) g) /\
+  (forall g, t_cograph P = Some g ->
+     if t_tern P then network_represents (t_n P) (t_m P) (transpose (t_m P) (t_n P) (t_M P)) g
+     else graph_represents (t_n P) (t_m P) (transpose (t_m P) (t_n P) (t_M P)) g).
+Proof. exact node_graphs_sound. Qed.
+Print Assumptions C04_stored_graphs_reproduce_matrix.
+
+(* the flag part of the node check: stored determinant-type minors have |det| >= 2 inside the node's matrix, an R10
+   node represents R10, and every non-zero regularity / graphicness / cographicness flag agrees with the Coq oracles
+   (tu_bf = determinant definition, regular_bf = signable to TU, graphic_bf = brute force over forests) on the nodes
+   where they apply (<= 36 entries; <= 4 rows resp. columns) *)
+Theorem C04_flags_agree_with_oracles : forall P, check_flags P = 0 -> flags_spec P.
+Proof. exact check_flags_sound. Qed.
+Print Assumptions C04_flags_agree_with_oracles.
+
+(* every node of an accepted tree satisfies both of the above *)
+Theorem C04_every_node : forall t, check_tree t = 0 ->
+  Forall_tree (fun P Cs => check_node P Cs = 0) t.
+Proof. exact check_tree_all_nodes. Qed.
+Print Assumptions C04_every_node.
